@@ -168,12 +168,22 @@ Definition show_event (e : event) : string :=
 Definition show_status (s : status) : string :=
   match s with Alive => "alive" | Disconnected => "disconnected" | Panicked => "PANIC" | OutOfFuel => "FUEL" end.
 
-(** [decode] by table from the test generator (message bytes -> result), defaulting to
-    "decodes, type = first two bytes" *)
+(** [decode]: the classification [do_handle_message_holding_peer_lock] branches on, read off the
+    plaintext (type; for start_batch the channel id, batch size and the TLV (1, u16) = 132; for
+    commitment_signed the channel id), unless the test generator's table says the frame does not
+    decode *)
 Definition msg_type (m : Noise.bytes) : Z := nth 0 m 0 * 256 + nth 1 m 0.
+Definition classify_msg (m : Noise.bytes) : mkind :=
+  let ty := msg_type m in
+  if ty =? 16 then KInit
+  else if ty =? 127 then
+    KStartBatch (slice 2 34 m) (nth 34 m 0 * 256 + nth 35 m 0) (beqb (skipn 36 m) [1; 2; 0; 132])
+  else if ty =? 132 then KCommitmentSigned (slice 2 34 m)
+  else if ty =? 265 then KGossipFilter
+  else KOther ty.
 Fixpoint lookup_dres (tbl : list (Noise.bytes * dres)) (m : Noise.bytes) : dres :=
   match tbl with
-  | [] => DOk (msg_type m)
+  | [] => DOk (classify_msg m)
   | (a, v) :: t => if bytes_eqb a m then v else lookup_dres t m
   end.
 
